@@ -60,6 +60,9 @@ def run(model, res, tier):
         m, f = model.registered(n)
         keys.append((m.name, m.qualname_of(f)))
     region = c.cg.reachable(keys)
+    res.rule('RX', 'where a function answers "an error rather than a value" by raising, the catch-all of parse() turns every exception class into #ERROR! (shared with C01.R1)')
+    from . import c01 as _c01
+    H.borrow(res, 'RX', 'catch-all of parse()', lambda tmp: _c01.catch_all_rule(model, tmp, c))
     purity.check_region(res, c, 'R9', None, region, 'a date function')
     purity.check_memo(res, c, 'R9', region, 'a date function')
 
@@ -570,6 +573,43 @@ def _edate(model, res, opaque, E):
                     bad.append((sm, r, repr(y), repr(mo), carry, want_month))
         if bad is None:
             break
+    # the ends of the range: a target date inside 1900-9999 is a date, one month beyond either end is #NUM! (constant start dates)
+    n_edge = 0
+    for (sy_, sm_, sd_), off_, want_ in (((9998, 12, 15), 1, (9999, 1, 15)), ((9999, 1, 31), 3, (9999, 4, 30)), ((9999, 11, 30), 1, (9999, 12, 30)),
+                                         ((9999, 12, 1), 1, 'NUM'), ((1900, 2, 15), -1, (1900, 1, 15)), ((1900, 1, 15), -1, 'NUM'),
+                                         ((1901, 1, 31), -12, (1900, 1, 31))):
+        def mk_edge(sy_=sy_, sm_=sm_, sd_=sd_, off_=off_):
+            return [Obj(dt_cls, {'year': Const(sy_), 'month': Const(sm_), 'day': Const(sd_)}), Const(off_)]
+        try:
+            outs = [o for o in _runs(model, 'EDATE', mk_edge, opq) if not o.imprecise]
+        except Unmodelled as e:
+            res.ob('R5', 'EDATE', {'start': [sy_, sm_, sd_], 'months': off_}, True, 'undecided: %s' % e)
+            continue
+        if len(outs) != 1 or outs[0].kind != 'return':
+            res.ob('R5', 'EDATE', {'start': [sy_, sm_, sd_], 'months': off_}, True, 'undecided: %s' % H.describe(outs)[:2])
+            continue
+        v = outs[0].value
+        if isinstance(v, Aff) and v.kind == 'dt' and not v.coeffs:
+            # a constant date-time (seconds since 1970-01-01): read back as (year, month, day)
+            import datetime as _dtm
+            d_ = _dtm.datetime(1970, 1, 1) + _dtm.timedelta(seconds=int(v.const))
+            v = Atom('datetime', [Const(d_.year), Const(d_.month), Const(d_.day)], 'datetime')
+        if want_ == 'NUM':
+            ok = isinstance(v, Err) and v.name == E['#NUM!']
+        else:
+            ok = isinstance(v, Atom) and v.op == 'datetime' and len(v.args) >= 3 and all(isinstance(a_, Const) for a_ in v.args[:3]) and \
+                tuple(a_.value for a_ in v.args[:3]) == want_
+            if not ok and not (isinstance(v, Err) or (isinstance(v, Atom) and v.op == 'datetime' and all(isinstance(a_, Const) for a_ in v.args[:3]))):
+                res.ob('R5', 'EDATE', {'start': [sy_, sm_, sd_], 'months': off_}, True, 'undecided: %r' % (v,))
+                continue
+        n_edge += 1
+        res.ob('R5', 'EDATE', {'start': [sy_, sm_, sd_], 'months': off_, 'result': repr(v)}, ok)
+        if not ok:
+            res.violation('R5', 'function:EDATE:range-ends', m.where(f),
+                          'EDATE(%04d-%02d-%02d, %d) gives %r; expected %s: #NUM! is for target dates outside 1900-9999 only, both end years included'
+                          % (sy_, sm_, sd_, off_, v, '#NUM!' if want_ == 'NUM' else '%04d-%02d-%02d' % want_), case={'start': [sy_, sm_, sd_], 'months': off_},
+                          func=f.name)
+    res.soft_floor('EDATE range-end cases decided', n_edge, 5)
     if bad is not None:
         res.ob('R7', 'EDATE', '%d constructor calls over 12 start months x 12 offset residues (offset = 12q + r, start year symbolic)' % n, not bad, bad[:3])
         if bad:
